@@ -1,19 +1,21 @@
 #!/usr/bin/env python3
 """Regenerates MANIFEST.json from the table below (python3 harness/mkmanifest.py)."""
-import json, os
+import json, os, re
 V = os.path.dirname(os.path.dirname(os.path.abspath(__file__)))
 BASE = json.load(open("/root/.vp/BASELINE.json"))["cmd"] if os.path.exists("/root/.vp/BASELINE.json") else "cd /repo && go test -vet=off -count=1 ./..."
 
-CLAIMED = {
- "C11": dict(
-   text="Proof: contained_b is proved exact (true iff every value of S is a value of T, dyadic-rational value domains, all 17 types) "
-        "and the theorem C11_implicit_lossless is re-checked by coqc against the conversion table regenerated from the working tree "
-        "(17x17 ordered pairs x 4 positions + `as`), so the finite pair space is decided exhaustively and the value space universally.",
-   note="Trusted: Coq kernel; the black-box table generator (probe programs + reading ferret's verdict, cross-checked against the CLI on a sample); "
-        "IEEE parameters of f32..f256. Acceptance = type-check verdict.",
-   technique="Coq proof over a decision table regenerated from the compiler (translator) + exhaustive probe",
-   ref="DESIGN.md §5 C11"),
-}
+CLAIMED = {}
+FINDINGS = []
+FIXED = []
+MD = os.path.join(V, "harness", "meta")
+for fn in sorted(os.listdir(MD)):
+    if re.fullmatch(r"C\d+\.json", fn):
+        CLAIMED[fn[:-5]] = json.load(open(os.path.join(MD, fn)))
+    elif re.fullmatch(r"C\d+\.findings\.json", fn):
+        j = json.load(open(os.path.join(MD, fn)))
+        FINDINGS += j.get("findings", [])
+        FIXED += j.get("fixed", [])
+json.dump({"findings": FINDINGS, "fixed": FIXED}, open(os.path.join(V, "known_findings.json"), "w"), indent=1)
 NOT_YET = {}
 props = [json.loads(l) for l in open(os.path.join(V, "properties.jsonl"))]
 checks = []
